@@ -3,10 +3,11 @@ EXTENDS HistND
 A1  == << <<2, 4>>, <<4, 6>> >>
 A2  == << <<2, 4>>, <<4, 8>>, <<8, 10>> >>
 A1g == << <<2, 4>>, <<6, 8>> >>
-MCAxisLayouts == { <<A1, A2>>, <<A1g, A2>>, <<A2, A1>> }
-MCRIncl == { <<TRUE, TRUE>>, <<TRUE, FALSE>>, <<FALSE, FALSE>> }
+\* <<A1, A1>>: equal edges on both axes, told apart only by their right-edge declarations
+MCAxisLayouts == { <<A1, A2>>, <<A1g, A2>>, <<A2, A1>>, <<A1, A1>> }
+MCRIncl == { <<TRUE, TRUE>>, <<TRUE, FALSE>>, <<FALSE, TRUE>>, <<FALSE, FALSE>> }
 \* x: below / inside / inner edge / gap or inside / last edge of A1 / above A1 ; y: inside / edge / last edge of A2 / above
-MCRows == { <<1, 3>>, <<3, 3>>, <<4, 8>>, <<5, 5>>, <<6, 10>>, <<6, 3>>, <<3, 10>>, <<7, 9>>, <<8, 6>>, <<3, 11>>, <<10, 6>>, <<NaN, 3>>, <<3, NaN>> }
+MCRows == { <<1, 3>>, <<3, 3>>, <<4, 8>>, <<5, 5>>, <<6, 10>>, <<6, 3>>, <<3, 10>>, <<7, 9>>, <<8, 6>>, <<3, 11>>, <<10, 6>>, <<3, 6>>, <<6, 6>>, <<NaN, 3>>, <<3, NaN>> }
 MCWeights == {1, 2}
 UE == {<<r, 1>> : r \in MCRows}
 WE == {<<r, w>> : r \in {<<3, 3>>, <<6, 10>>, <<1, 3>>, <<5, 5>>, <<NaN, 3>>, <<8, 6>>}, w \in {1, 2}}
